@@ -193,7 +193,7 @@ class Emitter:
             if add_flags or del_flags:
                 raise Unsupported("inline flags")
             inner = self.seq(list(sub), icase)
-            return inner if group is None else "(Grp %d %s)" % (group, inner)
+            return inner if group is None else "(Grp %d%%nat %s)" % (group, inner)
         if op in (sre_c.MAX_REPEAT, sre_c.MIN_REPEAT):
             lo, hi, sub = av
             wlo, whi = sub.getwidth()
@@ -204,10 +204,10 @@ class Emitter:
             if wlo == 0:
                 raise Unsupported("repeat of a nullable body")
             inner = self.seq(list(sub), icase)
-            his = "None" if hi is sre_c.MAXREPEAT or hi == sre_c.MAXREPEAT else "(Some %d)" % hi
+            his = "None" if hi is sre_c.MAXREPEAT or hi == sre_c.MAXREPEAT else "(Some %d%%nat)" % hi
             if lo > 2000 or (hi != sre_c.MAXREPEAT and hi > 2000):
                 raise Unsupported("huge repeat count")
-            return "(Rep %s %s %d %s)" % ("true" if op is sre_c.MAX_REPEAT else "false", inner, lo, his)
+            return "(Rep %s %s %d%%nat %s)" % ("true" if op is sre_c.MAX_REPEAT else "false", inner, lo, his)
         if op in (sre_c.ASSERT, sre_c.ASSERT_NOT):
             direction, sub = av
             neg = "true" if op is sre_c.ASSERT_NOT else "false"
@@ -217,7 +217,7 @@ class Emitter:
             wlo, whi = sub.getwidth()
             if wlo != whi:
                 raise Unsupported("variable-width look-behind")
-            return "(Look false %s %d %s)" % (neg, wlo, inner)
+            return "(Look false %s %d%%nat %s)" % (neg, wlo, inner)
         if op is sre_c.AT:
             name = str(av)
             if name in ("AT_BEGINNING", "AT_BEGINNING_STRING"):
